@@ -75,14 +75,87 @@ def safe_round(x, u, d):
     return dist > s / 2 ** 40
 
 
-def six_digit_ok(v, x, u):
+def six_digit_ok(v, x, u, slack_bits=45):
     """|v/u - x/u| <= half a unit of the sixth significant digit of x/u (plus double rounding)"""
+    if isinstance(v, float) and (math.isnan(v) or math.isinf(v)):
+        return False
     q = Fraction(x) / Fraction(u)
     w = Fraction(v) / Fraction(u)
     if q == 0:
         return w == 0
     bound = Fraction(10) ** (expo10(q) - 5) / 2
-    return abs(w - q) <= bound + abs(q) / 2 ** 45
+    return abs(w - q) <= bound + abs(q) / 2 ** slack_bits
+
+
+def poly(cf, x):
+    acc = Fraction(0)
+    for c_ in reversed(cf):
+        acc = Fraction(c_) + Fraction(x) * acc
+    return acc
+
+
+def func_point_ok(cf, x, ux, uy):
+    """(x, f(x)) keeps the six-digit margins, on the exact value and on the double the harness computes"""
+    y = poly(cf, x)
+    fy = float(y)
+    return safe6(x, ux) and safe6(fy, uy) and abs(Fraction(fy) - y) <= abs(y) / 2 ** 48 and _margin6(y / Fraction(uy), 30)
+
+
+def grid_expected(lo, hi, n, logarithmic):
+    """abscissae of Linear_Space / Log_Space: {xMin} for steps < 2 or xMin == xMax"""
+    if n < 2 or lo == hi:
+        return [Fraction(lo)]
+    if not logarithmic:
+        return [Fraction(lo) + i * (Fraction(hi) - Fraction(lo)) / (n - 1) for i in range(n)]
+    import mpmath
+    mpmath.mp.prec = 200
+    r = mpmath.mpf(hi) / mpmath.mpf(lo)
+    return [Fraction(lo) * Fraction(mpmath.nstr(mpmath.power(r, mpmath.mpf(i) / (n - 1)), 45)) for i in range(n)]
+
+
+FUNC_CLAUSE = "Export_Function/Import_Table round trip fails on a degenerate grid"
+
+
+def func_rt_oracle(a, impl=None):
+    """parse the request of a range-overload round trip"""
+    h = unhex(a[0])
+    us, rest = read_list(a[1:], fl)
+    lo, hi, n = fl(rest[0]), fl(rest[1]), int(rest[2])
+    cf, _ = read_list(rest[3:], fl)
+    return h, us, lo, hi, n, cf
+
+
+def func_rt_check(op, a, impl):
+    out = []
+    h, us, lo, hi, n, cf = func_rt_oracle(a, impl)
+    logarithmic = op == "c20.rtfuncG"
+    degenerate = n < 4 or lo == hi
+    clause = FUNC_CLAUSE if degenerate else "Export_Function/Import_Table round trip fails (range overload)"
+    what = "Export_Function(f, %r, %r, %d, units %r, %s, %d header lines)" % (lo, hi, n, us, "log" if logarithmic else "linear", h.count("\n") + 1 if h else 0)
+    if tag(impl) != "ok":
+        return [fail("prop", clause, what + ": " + impl[:120])]
+    ti = toks(impl)
+    bytes_ = unhex(ti[0])
+    hl = h.count("\n") + 1 if h else 0
+    data_lines = bytes_.split("\n")[hl:]
+    bad = [t for l in data_lines for t in l.split() if "nan" in t.lower() or "inf" in t.lower()]
+    if bad:
+        out.append(fail("prop", clause, what + ": the file contains the token %r for finite inputs" % bad[0]))
+    xs = grid_expected(lo, hi, n, logarithmic)
+    if ti[2].startswith("import:"):
+        out.append(fail("prop", clause, what + ": Import_Table with the number of header lines written: " + " ".join(ti[2:])[7:]))
+        return out
+    rows, _ = read_table(ti[2:], fl)
+    if len(rows) != len(xs) or any(len(r) != 2 for r in rows):
+        out.append(fail("prop", clause, what + ": read back %s, expected %d rows x 2 columns" % ([len(r) for r in rows][:6], len(xs))))
+        return out
+    ux, uy = (us[0], us[1]) if us else (1.0, 1.0)
+    sb = 36 if logarithmic else 45
+    for i, (r, x) in enumerate(zip(rows, xs)):
+        if not six_digit_ok(r[0], x, ux, sb) or not six_digit_ok(r[1], poly(cf, x), uy, sb):
+            out.append(fail("prop", clause, what + ": row %d read back (%r, %r), expected (%r, %r) to six digits" % (i, r[0], r[1], float(x), float(poly(cf, x)))))
+            break
+    return out
 
 
 def enhex(s):
@@ -231,6 +304,27 @@ def generate(tier, seed, ctx):
             exact = (n < 2 or a == b) or all(Fraction(p) == Fraction(a) + i * (Fraction(b) - Fraction(a)) / (n - 1) for i, p in enumerate(pts))
             if exact and all(ok_point(p) for p in pts):
                 R.append("c20.expfuncL %s %s %s %s %d %s" % (enhex(rng.choice(HEADERS)), lst(us), hx(a), hx(b), n, lst(cf)))
+    # --- Export_Function range overload round trip: degenerate and regular grids, linear and logarithmic -----------
+    grids = [(n_, same) for n_ in (0, 1, 2, 3) for same in (False, True)] + [(5, True), (5, False), (9, False), (17, False)]
+    for rep in range(3 if thorough else 1):
+        for (n_, same) in grids:
+            for with_h in (False, True):
+                for with_u in (False, True):
+                    h = rng.choice(HEADERS[1:]) if with_h else ""
+                    cf = [rng.randint(1, 9) / 4.0 for _ in range(rng.randint(1, 3))]
+                    for _ in range(30):
+                        us = [gen_unit(rng), abs(gen_unit(rng))] if with_u else []
+                        ux, uy = (us[0], us[1]) if us else (1.0, 1.0)
+                        a_ = float(rng.randint(1, 50))
+                        b_ = a_ if same else a_ + max(n_ - 1, 1) * rng.choice([0.25, 0.5, 2.0])
+                        pts = [float(x) for x in grid_expected(a_, b_, n_, False)]
+                        if all(func_point_ok(cf, p_, ux, uy) for p_ in pts):
+                            R.append("c20.rtfuncL %s %s %s %s %d %s" % (enhex(h), lst(us), hx(a_), hx(b_), n_, lst(cf)))
+                            break
+                    us = [abs(gen_unit(rng)), abs(gen_unit(rng))] if with_u else []
+                    a_ = rng.uniform(0.5, 50)
+                    b_ = a_ if same else a_ * rng.choice([2.0, 10.0, 1000.0])
+                    R.append("c20.rtfuncG %s %s %s %s %d %s" % (enhex(h), lst(us), hx(a_), hx(b_), n_, lst(cf)))
     # --- readers on given files: header count off, junk, blank lines, missing final newline ----------------------
     for k in range(200 if thorough else 70):
         r, c = rng.randint(1, 8), rng.randint(1, 5)
@@ -542,6 +636,22 @@ def compare(rq, impl, model, ctx):
     bump(ctx, op)
     if op in ("c20.unit", "c20.units", "c20.ident"):
         return compare_units(op, a, model, ctx)
+    if op in ("c20.rtfuncL", "c20.rtfuncG"):
+        if tag(model) == "undef":
+            return []
+        out = func_rt_check(op, a, impl)
+        h_, us_, lo_, hi_, n_, _cf = func_rt_oracle(a, impl)
+        ctx["nontrivial"].add((op, min(n_, 4), lo_ == hi_, bool(h_), bool(us_)))
+        if op == "c20.rtfuncL" and tag(impl) == "ok" and tag(model) == "ok":
+            ti, tm = toks(impl), toks(model)
+            cmp_bytes(unhex(ti[0]), unhex(tm[0]), 10 ** 9, lambda i, j: None, "Export_Function (range overload)", out, ctx)
+            if ti[1] != tm[1]:
+                out.append(fail("corr", "Count_Lines of the exported function table", "impl %s model %s" % (ti[1], tm[1])))
+            if not ti[2].startswith("import:") and tm[2] not in ("err", "undef"):
+                ri, _ = read_table(ti[2:], fl)
+                rm, _ = read_table(tm[2:], fr)
+                cmp_values(ri, rm, "Import_Table of the exported function table", out)
+        return out
     if tag(model) == "undef":
         # outside the model and outside the property (more ignored lines than the file has: rows = 0 or an
         # unsigned wrap; zero unit): whatever the implementation does is not compared
@@ -885,6 +995,8 @@ def oracle_only(rq, impl, ctx):
     a = rq.split()[1:]
     if op == "c20.units":
         return py_identities(ctx)
+    if op in ("c20.rtfuncL", "c20.rtfuncG"):
+        return func_rt_check(op, a, impl)
     if tag(impl) != "ok":
         return []
     ti = toks(impl)
